@@ -44,6 +44,14 @@ Theorem C17_env_decimal_accepted : forall ds min, ds <> [] -> all_digits ds = tr
 Proof. exact env_decimal_accepted. Qed.
 Print Assumptions C17_env_decimal_accepted.
 
+Theorem C17_env_prefixed_accepted : forall p b ds min,
+  In (p, b) [(98,2); (66,2); (111,8); (79,8); (120,16); (88,16)]%N ->
+  ds <> [] -> digits_in b ds = true -> (0 <= min)%Z ->
+  (min < Z.of_N (base_val b ds) < 9223372036854775808)%Z ->
+  parse_or_default (48%N :: p :: ds) min = EnvValue (Z.of_N (base_val b ds)).
+Proof. exact env_prefixed_accepted. Qed.
+Print Assumptions C17_env_prefixed_accepted.
+
 (* non-vacuity and the spellings of the correspondence pool: "7", "0x7fffffff", "0b11", "1_000", "017",
    2^63-1 accepted; 2^63, "1" (not above the minimum), "08", "1__0", "0x" rejected *)
 Example C17_env_examples :
